@@ -70,7 +70,8 @@ Inductive op :=
 | Undelegate (st a o : string) (amt : Z)
 | Associate (chain_ok : bool) (st o : string)     (* chain_ok: ClientChainExists, decided outside the ledger *)
 | Dissociate (st : string)
-| Slash (o : string) (prop : Z).                  (* prop: the proportion SlashAssets applied (LegacyDec, scaled) *)
+| Slash (o : string) (prop : Z)                   (* prop: the proportion SlashAssets applied (LegacyDec, scaled) *)
+| NstBalance (st a : string) (x pend dep : Z).    (* UpdateNSTBalance(staker, asset, x); pend, dep: see do_nst_balance *)
 
 Inductive result := ROk | RErr | RPanic.   (* RPanic: the keeper call panicked; the model never predicts it *)
 Definition result_eqb (a b : result) : bool :=
@@ -119,7 +120,13 @@ Definition validate_undelegation (s : state) (st a o : string) (amt : Z) : optio
   | Some mine, Some p =>
       match SharesFromTokens (p_tot p) amt (p_amt p), SharesFromTokens (p_tot p) 1 (p_amt p) with
       | KOk sh, KOk tol =>
-          if sh >? mine then None
+          if sh >? mine then
+            (* repair 56b99a6: a request within the reported position whose converted share exceeds the staker's share
+               (rounding dust) is an undelegation of the whole position *)
+            match TokensFromShares mine (p_tot p) (p_amt p) with
+            | KOk position => if amt >? position then None else Some mine
+            | _ => None
+            end
           else Some (if mine - sh <? tol then mine else sh)
       | _, _ => None
       end
@@ -130,38 +137,108 @@ Definition validate_undelegation (s : state) (st a o : string) (amt : Z) : optio
 Definition removed_tokens (p : pool) (sh : Z) : kres Z :=
   if p_tot p =? sh then KOk (p_amt p) else TokensFromShares sh (p_tot p) (p_amt p).
 
+(* RemoveShare (the isUndelegation flag only steers fields outside this model: pending-undelegation amounts) *)
+Definition do_remove_share (s : state) (st a o : string) (sh : Z) : option state :=
+  if negb (sh >? 0) then None
+  else
+    let p := pool_of s o a in
+    if sh >? p_tot p then None
+    else match removed_tokens p sh with
+         | KOk tok =>
+             if p_amt p <? tok then None                                  (* UpdateAssetValue *)
+             else if is_assoc s st o && (p_op p <? sh) then None          (* UpdateAssetDecValue *)
+             else
+               let p' := mkPool (p_amt p - tok) (p_tot p - sh) (if is_assoc s st o then p_op p - sh else p_op p) in
+               let mine' := share_of s st a o - sh in
+               if mine' <? 0 then None
+               else
+                 let rows' := aset k3_eqb (st_rows s) (st, a, o) mine' in
+                 let pools' := aset k2_eqb (st_pools s) (o, a) p' in
+                 if mine' =? 0 then
+                   match aget k2_eqb (st_lists s) (o, a) with
+                   | None => None                                          (* ErrNoKeyInTheStore *)
+                   | Some l => Some (mkSt pools' rows' (aset k2_eqb (st_lists s) (o, a) (remove_first st l))
+                                          (st_assoc s) (st_free s))
+                   end
+                 else Some (mkSt pools' rows' (st_lists s) (st_assoc s) (st_free s))
+         | _ => None
+         end.
+
 Definition do_undelegate (ops : list string) (s : state) (st a o : string) (amt : Z) : option state :=
   if negb (amt >? 0) then None
   else if negb (mem o ops) then None
   else
     match validate_undelegation s st a o amt with
     | None => None
-    | Some sh =>
-        if negb (sh >? 0) then None
-        else
-          let p := pool_of s o a in
-          if sh >? p_tot p then None
-          else match removed_tokens p sh with
-               | KOk tok =>
-                   if p_amt p <? tok then None                                  (* UpdateAssetValue *)
-                   else if is_assoc s st o && (p_op p <? sh) then None          (* UpdateAssetDecValue *)
-                   else
-                     let p' := mkPool (p_amt p - tok) (p_tot p - sh) (if is_assoc s st o then p_op p - sh else p_op p) in
-                     let mine' := share_of s st a o - sh in
-                     if mine' <? 0 then None
-                     else
-                       let rows' := aset k3_eqb (st_rows s) (st, a, o) mine' in
-                       let pools' := aset k2_eqb (st_pools s) (o, a) p' in
-                       if mine' =? 0 then
-                         match aget k2_eqb (st_lists s) (o, a) with
-                         | None => None                                          (* ErrNoKeyInTheStore *)
-                         | Some l => Some (mkSt pools' rows' (aset k2_eqb (st_lists s) (o, a) (remove_first st l))
-                                                (st_assoc s) (st_free s))
-                         end
-                       else Some (mkSt pools' rows' (st_lists s) (st_assoc s) (st_free s))
-               | _ => None
-               end
+    | Some sh => do_remove_share s st a o sh
     end.
+
+(* ---- UpdateNSTBalance (update_native_restaking_balance.go) ---- *)
+(* the delegation rows of (staker, asset): (operator, share) *)
+Definition staker_rows (s : state) (st a : string) : list (string * Z) :=
+  flat_map (fun kv : k3 * Z => if String.eqb (fst (fst (fst kv))) st && String.eqb (snd (fst (fst kv))) a
+                               then [(snd (fst kv), snd kv)] else []) (st_rows s).
+
+(* TotalDelegatedAmountForStakerAsset *)
+Fixpoint total_delegated (s : state) (a : string) (rs : list (string * Z)) : option Z :=
+  match rs with
+  | [] => Some 0
+  | (o, sh) :: r =>
+      if sh =? 0 then total_delegated s a r
+      else match aget k2_eqb (st_pools s) (o, a) with
+           | None => None
+           | Some p => match TokensFromShares sh (p_tot p) (p_amt p), total_delegated s a r with
+                       | KOk v, Some t => Some (v + t)
+                       | _, _ => None
+                       end
+           end
+  end.
+
+(* the closure over the delegations: RemoveShare(isUndelegation = false) of share.Mul(proportion) for every row, then
+   TotalDepositAmount -= the removed tokens (an underflow is an error); [dep] = the running TotalDepositAmount *)
+Fixpoint nst_fold (prop : Z) (st a : string) (rs : list (string * Z)) (dep : Z) (s : state) : option state :=
+  match rs with
+  | [] => Some s
+  | (o, sh) :: r =>
+      match removed_tokens (pool_of s o a) (dec_mul sh prop), do_remove_share s st a o (dec_mul sh prop) with
+      | KOk tok, Some s' => if dep <? tok then None else nst_fold prop st a r (dep - tok) s'
+      | _, _ => None
+      end
+  end.
+
+Definition set_free (s : state) (st a : string) (v : Z) : state :=
+  mkSt (st_pools s) (st_rows s) (st_lists s) (st_assoc s) (aset k2_eqb (st_free s) (st, a) v).
+
+(* [pend] = sum of ActualCompletedAmount of the staker's pending undelegations of the asset, [dep] = the staker's
+   TotalDepositAmount of the asset before the call (undelegation records and the staker-asset ledger are outside this
+   model — they are C03's / C01's; both are observed by the harness before the call) *)
+Definition do_nst_balance (s : state) (st a : string) (x pend dep : Z) : option state :=
+  if x >? 0 then Some (set_free s st a (free_of s st a + x))
+  else if x =? 0 then Some s
+  else match aget k2_eqb (st_free s) (st, a) with
+       | None => None                                   (* GetStakerSpecifiedAssetInfo *)
+       | Some free =>
+           let need := - x in
+           let fromW := Z.min need free in
+           if dep <? fromW then None                    (* TotalDepositAmount underflow *)
+           else
+           let s1 := set_free s st a (free - fromW) in
+           let fromP := Z.min (need - free) pend in     (* taken from the pending undelegations *)
+           let rem := need - free - pend in             (* left for the delegated shares *)
+           if need - free <=? 0 then Some s1
+           else if dep - fromW <? fromP then None
+           else if rem <=? 0 then Some s1
+           else
+             let rs := staker_rows s1 st a in
+             match total_delegated s1 a rs with
+             | None => None
+             | Some tot =>
+                 if tot =? 0 then Some s1
+                 else
+                   let q := dec_quo (dec_of_int rem) (dec_of_int tot) in
+                   nst_fold (if q >? P then P else q) st a rs (dep - fromW - fromP) s1     (* MaxSlashProportion = 1 *)
+             end
+       end.
 
 (* the body of the closures of Associate / Dissociate, folded over the scanned rows; sign = +1 / -1 *)
 Fixpoint move_op_share (sign : Z) (stakerID o : string) (rows : list (k3 * Z)) (pools : list (k2 * pool))
@@ -242,6 +319,7 @@ Definition step_opt (ops : list string) (s : state) (x : op) : option state :=
   | Associate c st o => do_associate ops s c st o
   | Dissociate st => do_dissociate s st
   | Slash o prop => do_slash s o prop
+  | NstBalance st a x pend dep => do_nst_balance s st a x pend dep
   end.
 
 Definition step (ops : list string) (s : state) (x : op) : state * result :=
